@@ -227,7 +227,7 @@ func TestVerifC07Matchers(t *testing.T) {
 		reqOp := fmt.Sprintf("req %d %s %s", nUp, reqFb, c07RenderOp(reqRules))
 		rp, err := c07BuildReq(dnsCfg, name2id)
 		if err != nil {
-			st.Emit(reqOp, "builderr:"+err.Error())
+			st.Emit(reqOp, "builderr")
 		} else {
 			st.Emit(reqOp, c07DumpReq(rp.plainB, rp.plain))
 			if ci < 3 {
@@ -248,7 +248,7 @@ func TestVerifC07Matchers(t *testing.T) {
 		respOp := fmt.Sprintf("resp %d %s %s", nUp, respFb, c07RenderOp(respRules))
 		sp, err := c07BuildResp(dnsCfg, name2id)
 		if err != nil {
-			st.Emit(respOp, "builderr:"+err.Error())
+			st.Emit(respOp, "builderr")
 			continue
 		}
 		st.Emit(respOp, c07DumpResp(sp.plainB, sp.plain))
